@@ -144,9 +144,13 @@ func (c *KeyCase) Exec(t *eng.T) {
 		ctx, before = nil, nil
 	}
 	var o px.Out
-	if c.Via == "blocks" {
+	if c.Via == "blocks" || c.Via == "blocks-none" {
+		names := []string{"a"}
+		if c.Via == "blocks-none" {
+			names = []string{"no_such_block"} // nothing to render: the context is checked all the same
+		}
 		site, msg, pan := eng.Protect(func() {
-			if _, err := tpl.ExecuteBlocks(ctx, []string{"a"}); err != nil {
+			if _, err := tpl.ExecuteBlocks(ctx, names); err != nil {
 				o.Err = err.Error()
 			}
 		})
@@ -299,6 +303,31 @@ func run(r *eng.Runner) {
 		}
 	}
 
+	// a name keeps the value it was given
+	r.Group("set-is-a-value", "prog.case", "a name set (or bound by with) to a field of the forloop record in the first / every second pass of a loop is printed in every pass: it keeps the value of the pass it was set in")
+	{
+		cx := map[string]V{"xs": ListV(IntV(5), IntV(6), IntV(7), IntV(8))}
+		for _, field := range []string{"Counter", "Counter0", "Revcounter", "Revcounter0", "First", "Last"} {
+			for _, cond := range []Expr{v("forloop", "First"), Bin{Op: "==", L: Bin{Op: "%", L: v("forloop", "Counter0"), R: Lit{V: IntV(2)}}, R: Lit{V: IntV(0)}}} {
+				body := []Node{If{Conds: []Expr{cond}, Bodies: [][]Node{{Set{Name: "c", E: v("forloop", field)}}}}, O(v("c")), T(",")}
+				main := []Node{For{Key: "x", Over: v("xs"), Body: body}, T("|"), O(v("c"))}
+				if c, ok := prog.BuildTwice(map[string][]Node{"/main": main}, cx, prog.Vary(cx), nil, "set-value", "set-is-a-value "+field, false); ok {
+					r.Do(c)
+				} else {
+					r.AddExtra("programs_outside_fragment", 1)
+				}
+				// nested: the outer loop's field bound by with around an inner loop, and set inside the inner loop
+				inner := For{Key: "y", Over: v("xs"), Body: []Node{If{Conds: []Expr{v("forloop", "Last")}, Bodies: [][]Node{{Set{Name: "d", E: v("forloop", "Parentloop", field)}}}}, O(v("d")), T(";")}}
+				main2 := []Node{For{Key: "x", Over: v("xs"), Body: []Node{With{Pairs: []Pair{{"w", v("forloop", field)}}, Body: []Node{inner, O(v("w"))}}, T(",")}}}
+				if c, ok := prog.BuildTwice(map[string][]Node{"/main": main2}, cx, prog.Vary(cx), nil, "set-value", "set-is-a-value nested "+field, false); ok {
+					r.Do(c)
+				} else {
+					r.AddExtra("programs_outside_fragment", 1)
+				}
+			}
+		}
+	}
+
 	// sequences owned by the caller (context) or the set (globals) that loops reorder
 	r.Group("caller-data", "prog.case", "loops with every subset of {reversed, sorted} over lists and maps that belong to the caller's context or the set's globals, reached directly, through with / set aliases and as a macro argument: the data is the same afterwards (deep comparison) and a second loop sees the original order")
 	{
@@ -347,12 +376,12 @@ func run(r *eng.Runner) {
 	for _, k := range []struct {
 		k      string
 		reject bool
-	}{{"a", false}, {"A_1", false}, {"_x", false}, {"a b", true}, {"", true}, {"a-b", true}, {"ä", true}, {"a\n", true}, {"a.b", true}, {"'q", true}, {"{{", true}} {
+	}{{"a", false}, {"A_1", false}, {"_x", false}, {"x1", false}, {"1x", false}, {"1", false}, {"a b", true}, {"", true}, {"a-b", true}, {"ä", true}, {"a\n", true}, {"a.b", true}, {"'q", true}, {"{{", true}} {
 		r.Do(&KeyCase{Key: eng.Q(k.k), Reject: k.reject})
 	}
 	r.Do(&KeyCase{Key: "mac", Macro: true, Reject: true})
 	// the same rules when the executed template extends a base, when the key comes from the set's Globals, and for ExecuteBlocks
-	for _, via := range []string{"", "globals", "blocks", "globals-nil"} {
+	for _, via := range []string{"", "globals", "blocks", "globals-nil", "blocks-none"} {
 		r.Do(&KeyCase{Key: "mac", Macro: true, Reject: true, Extends: true, Via: via})
 		r.Do(&KeyCase{Key: "other", Reject: false, Extends: true, Via: via})
 		r.Do(&KeyCase{Key: "a-b", Reject: true, Extends: true, Via: via})
